@@ -36,7 +36,7 @@ Definition ev_of (o : outcome) : event := match o with OEof => EvEof | OErr e =>
 Inductive cmd :=
 | CRun (es : list entry) (o : outcome)   (* run(rule, fresh sender); parse = entries es, outcome o *)
 | CCont                                   (* cont() *)
-| CAdd (r : rule)                         (* add_breakpoint *)
+| CAdd (rs : list rule)                   (* add_breakpoint (one rule) / add_all_rules_breakpoints (the grammar's rules): one guard, all inserts *)
 | CDel (r : rule)                         (* delete_breakpoint *)
 | CRecv.                                  (* receiver.recv() on the current run's channel *)
 
@@ -69,7 +69,7 @@ Inductive cpc :=
 | RSpawn (es : list entry) (o : outcome)           (* r_spawn: before thread::spawn / self.handle = Some *)
 | KLoad                                            (* c_load: cont(), before is_done.load *)
 | KUnpark                                          (* c_unpark: before handle.thread().unpark() *)
-| EAdd (r : rule)                                  (* add_breakpoint: guard held, before insert and drop *)
+| EAdd (rs : list rule)                            (* add_breakpoint / add_all_rules_breakpoints: guard held, before the inserts and drop *)
 | EDel (r : rule).                                 (* delete_breakpoint: guard held, before remove and drop *)
 
 (* ghost log of the current run, newest first *)
@@ -205,6 +205,9 @@ Definition set_undisc (s : state) (b : bool) : state :=
   {| cmds := cmds s; c_pc := c_pc s; p_pc := p_pc s; handle := handle s; token := token s; is_done := is_done s;
      bps := bps s; mtx := mtx s; chan := chan s; log := log s; undisc := b; out := out s; cur_es := cur_es s; cur_o := cur_o s |}.
 
+Definition add_rules (rs b : list rule) : list rule :=
+  fold_left (fun b r => if mem r b then b else r :: b) rs b.
+
 Definition step_c (cf : config) (s : state) : option state :=
   match c_pc s with
   | CIdle =>
@@ -215,7 +218,7 @@ Definition step_c (cf : config) (s : state) : option state :=
           if handle s then Some (set_c (set_handle s false) (RLoad (isnil (chan s)) es o))   (* self.handle.take() *)
           else Some (set_c s (RReset es o))
       | CCont :: cs => Some (set_c (pop_cmd s cs) KLoad)
-      | CAdd r :: cs => if mtx s then None else Some (set_mtx (set_c (pop_cmd s cs) (EAdd r)) true)
+      | CAdd rs :: cs => if mtx s then None else Some (set_mtx (set_c (pop_cmd s cs) (EAdd rs)) true)
       | CDel r :: cs => if mtx s then None else Some (set_mtx (set_c (pop_cmd s cs) (EDel r)) true)
       | CRecv :: cs =>
           match p_pc s, chan s with
@@ -240,7 +243,7 @@ Definition step_c (cf : config) (s : state) : option state :=
       if is_done s then Some (add_out (set_c s CIdle) OContEof)
       else if handle s then Some (set_c s KUnpark)
       else Some (add_out (set_c s CIdle) OContNoRun)
-  | EAdd r => Some (set_mtx (set_bps (set_c s CIdle) (if mem r (bps s) then bps s else r :: bps s)) false)
+  | EAdd rs => Some (set_mtx (set_bps (set_c s CIdle) (add_rules rs (bps s))) false)
   | EDel r => Some (set_mtx (set_bps (set_c s CIdle) (remove_rule r (bps s))) false)
   | KUnpark =>
       let disciplined := count is_cont (log s) <? count is_bp_recv (log s) in
